@@ -504,6 +504,58 @@ class Ctx:
             return (patom(k), one)
         return (patom(k), one)
 
+def install_trig_expansion(ctx):
+    """sin / cos of a polynomial argument by the addition formulas over its monomials.  A term n * X with X an atan2 atom and
+    n a small integer is expanded by the multiple-angle recursion from sin X = y/h, cos X = x/h (h = sqrt(x^2 + y^2)); every
+    other term c * m gets a pair of atoms (S, C) with S^2 = 1 - C^2, shared by all occurrences of +-c * m."""
+    orig = ctx.call
+    one = pconst(1)
+    pairs = {}
+    def neg(r): return (pneg(r[0]), r[1])
+    def atan_base(k):
+        nd = ctx.atom_nodes.get(k)
+        if nd is None or nd.op != 'call' or nd.attr != 'atan2': return None
+        y, x = ctx.rat(nd.args[0]), ctx.rat(nd.args[1])
+        h2 = ctx.radd(ctx.rmul(x, x), ctx.rmul(y, y))
+        h = ctx.rdiv(ctx.sqrt_poly(h2[0]), ctx.sqrt_poly(h2[1]))
+        return ctx.rdiv(y, h), ctx.rdiv(x, h)
+    def add(a, b):
+        (s1, c1), (s2, c2) = a, b
+        return (ctx.radd(ctx.rmul(s1, c2), ctx.rmul(c1, s2)), ctx.radd(ctx.rmul(c1, c2), neg(ctx.rmul(s1, s2))))
+    def term(m, q):
+        """(sin, cos) of q * m"""
+        if q < 0:
+            s_, c_ = term(m, -q); return neg(s_), c_
+        if len(m) == 1 and m[0][1] == 1 and q == int(q) and 1 <= q <= 8:
+            b = atan_base(m[0][0])
+            if b is not None:
+                acc = b
+                for _ in range(int(q) - 1): acc = add(acc, b)
+                return acc
+        if not m: raise NotPoly('sine / cosine of a non-zero constant')
+        key = (m, q)
+        pr = pairs.get(key)
+        if pr is None:
+            ks = -(len(ctx.polyatoms) + 1); ctx.polyatoms[('fn', 'trig-s', key)] = ks
+            kc = -(len(ctx.polyatoms) + 1); ctx.polyatoms[('fn', 'trig-c', key)] = kc
+            for k_ in (ks, kc): ctx.atom_nodes[k_] = None; ctx.poly_names[k_] = None
+            ctx.rules[ks] = psub(one, ppow(patom(kc), 2))
+            pr = pairs[key] = ((patom(ks), one), (patom(kc), one))
+        return pr
+    def call(n):
+        if n.attr in ('sin', 'cos') and len(n.args) == 1:
+            try: a = ctx.rat(n.args[0])
+            except NotPoly: return orig(n)
+            if not (len(a[1]) == 1 and () in a[1]): return orig(n)
+            d0 = a[1][()]
+            acc = (({}, one), (one, one))
+            for m, c in sorted(a[0].items()):
+                acc = add(acc, term(m, Fraction(c) / d0))
+            return acc[0] if n.attr == 'sin' else acc[1]
+        return orig(n)
+    ctx.call = call
+    return pairs
+
 def _rat_sqrt(c):
     from math import isqrt
     if c < 0: return None
